@@ -82,8 +82,9 @@ func (prog *Prog) Dump(dest io.Writer) error {
 	for _, v := range prog.constants {
 		// all but string can fit in a fixed buffer
 		if s, ok := v.(string); ok {
-			if 2+len(s) > len(p) {
-				p = make([]byte, 2+len(s))
+			// type byte + length varint (up to 9 bytes) + string bytes
+			if 1+9+len(s) > len(p) {
+				p = make([]byte, 1+9+len(s))
 			}
 		}
 		n = valueToBytes(p, v)
